@@ -41,11 +41,11 @@ def run(p, report, tier):
     _rest(p, report, tier)
 
 
-def check_fit_recomputes(p, report, ents, rule, skip_attrs=()):
+def check_fit_recomputes(p, report, ents, rule, skip_attrs=(), only_attrs=None):
     for ci, f in ents:
         am = AttrMust(p, ci, f).run()
         must, exposed = am.summary()
-        exposed = {a: v for a, v in exposed.items() if a not in skip_attrs}
+        exposed = {a: v for a, v in exposed.items() if a not in skip_attrs and (only_attrs is None or a in only_attrs)}
         ent = f"{ci.name}.fit"
         for attr, (ln, file, qual, facts, via) in sorted(exposed.items()):
             exc = EXPOSED_OK.get((ent, attr))
